@@ -11,5 +11,8 @@ for p in $props; do
   (cd harness && cargo build --offline --bin $lp) || rc=1
   (cd lean && lake build $(grep -ho 'SamVerif\.Props\.[A-Za-z0-9]*' SamVerif/Audit/$p.lean | sort -u) drv-$lp) || rc=1
 done
-[ $rc = 0 ] && echo "setup ok" || echo "setup finished with errors"
-exit $rc
+# A property whose theorem module or harness does not build is reported by its own check
+# (proof_gate: VIOLATION ... no-failing-input-found); setup itself only pre-builds, so that one
+# broken property cannot prevent the others from being run.
+[ $rc = 0 ] && echo "setup ok" || echo "setup finished with build errors in some properties (their checks will report them)"
+exit 0
